@@ -19,17 +19,20 @@ def specOf (c : Conv) (garbage : Option String) : String :=
 def handle (line : String) : Out :=
   match line.splitOn "\t" with
   | [op, impl] =>
-    match groups op, groups impl with
-    | [["eng", proto, role, _], steps], [_, evs] =>
+    match groups op with
+    | [["eng", proto, role, _], steps] =>
       match findMachine proto role, roleNat role, parseSteps steps ⟨[], []⟩ with
       | some m, some r, some sc =>
-        let model := match replay m r evs with
-          | none => impl
-          | some rej => rej
+        -- an output that is not a summary + trace (e.g. `STUCK …`) is judged by the spec column
+        let model := match groups impl with
+          | [_, evs] => (match replay m r evs with
+            | none => impl
+            | some rej => rej)
+          | _ => "bad-trace"
         let c := conv m r (sc.locals.length + sc.peers.length + 1) m.init sc.locals sc.peers {}
         { model := model, spec := specOf c (firstBad sc.peers) }
       | _, _, _ => badOp
-    | _, _ => { model := "bad-trace", spec := "*" }
+    | _ => badOp
   | _ => badOp
 
 end GV.Drv.C11
